@@ -192,9 +192,46 @@ def run_direct(chk, n_cfg):
             reqs.append(('write_out', [rel, mk(True, True), mk(False, True), [[k, [2, 777]]] if fault else [], [k, ci]]))      # 777: the socket's error
             metas.append(('out', cfg, got, {'listeners': [[i, e, o, flt, {str(kk): str(v) for kk, v in beh.items()}] for i, e, o, flt, beh in ls], 'packet': [k, ci],
                                             'socket_fails': fault, 'connected': conn.connected}))
+        # the same outgoing packets once more through the queue and the flush of disconnect() ("while self._pop_packet(): pass"):
+        # a vetoed packet (IgnorePacket from an outgoing listener) is skipped, the ones behind it are written; another
+        # exception ends the flush there with the rest still queued (model: flush_all, theorems C13_flush_*)
+        pop = getattr(conn, '_pop_packet', None)
+        if pop is not None and outgoing:
+            import collections
+            conn._outgoing_packet_queue = collections.deque()        # (what connect() creates for a new session)
+            del log[:]
+            conn.connected = True
+            faulty = set(k for k, _ci in outgoing if rng.random() < 0.15)
+            for k, ci in outgoing:
+                p = classes[ci](context=ConnectionContext(protocol_version=757))
+                p.key, p.v = k, 1
+
+                def write(sock, thr=None, p=p, w=p.write):
+                    if p.key in faulty:
+                        raise BrokenPipeError(32, 'Broken pipe')
+                    r = w(sock, thr)
+                    log.append(('W', p.key))
+                    return r
+                p.write = write
+                conn.write_packet(p)
+            outcome = [0]
+            try:
+                while pop():
+                    pass
+            except Boom as e:
+                outcome = [2, e.code]
+            except OSError:
+                outcome = ['io']
+            except Exception as e:
+                outcome = ['unexpected', exn_name(e)]
+            rest = [q.key for q in conn._outgoing_packet_queue]
+            conn._outgoing_packet_queue.clear()
+            reqs.append(('flush_all', [rel, mk(True, True), mk(False, True), [[k, [2, 777]] for k in sorted(faulty)], [[k, ci] for k, ci in outgoing]]))
+            metas.append(('flush', cfg, ([list(x) for x in log], outcome, rest),
+                          {'listeners': [[i, e, o, flt, {str(kk): str(v) for kk, v in beh.items()}] for i, e, o, flt, beh in ls], 'queued': [list(x) for x in outgoing], 'write_fails_for': sorted(faulty)}))
     res = run_model(reqs)
     for (kind, cfg, got, case), r in zip(metas, res):
-        ev, oc = r
+        ev, oc = r[0], r[1]
         exp_log = [['L', e[1], e[2]] if e[0] == 0 else ['R', e[1]] if e[0] == 1 else ['W', e[1]] for e in ev]
         exp_out = [0] if oc[0] in (0, 1) else [2, oc[1]]      # IgnorePacket is swallowed: the caller sees a normal return
         if oc[0] == 2 and oc[1] == 777:
@@ -203,7 +240,10 @@ def run_direct(chk, n_cfg):
         nmatch = sum(1 for e in exp_log if e[0] == 'L')
         chk.count(kind, case, nmatch >= 2)
         chk.tally('%s:%s' % (kind, ['done', 'ignored', 'raised'][oc[0]]))
-        if got[0] != exp_log or got[1] != exp_out:
+        if kind == 'flush' and (got[0] != exp_log or got[1] != exp_out or got[2] != r[2]):
+            chk.violation(kind, 'flush:%s' % (hash(str(case)) % 10 ** 8), {'case': case, 'expected': [exp_log, exp_out, r[2]], 'observed': list(got)},
+                          'flush of %d queued packets: calls and writes %s (outcome %s, still queued %s); the model gives %s (outcome %s, still queued %s)' % (len(case['queued']), got[0], got[1], got[2], exp_log, exp_out, r[2]))
+        elif kind != 'flush' and (got[0] != exp_log or got[1] != exp_out):
             chk.violation(kind, '%s:%s' % (kind, hash(str(case)) % 10 ** 8), {'case': case, 'expected': [exp_log, exp_out], 'observed': [got[0], got[1]]},
                           '%s packet: listeners were called as %s (outcome %s); the documented order gives %s (outcome %s)' % ('incoming' if kind == 'in' else 'outgoing', got[0], got[1], exp_log, exp_out))
     if metas:
